@@ -150,7 +150,33 @@ def _sym_sel(w, s):
     return None
 
 
-def contract_tt(w, name, args):
+def _closure_bool(I, fr, f, x):
+    """value of a pure predicate closure / fn item on x, as a Bool term"""
+    outs = I.call_value(fr, f, [x])
+    val = None
+    for o in outs:
+        if o.kind == 'panic' and not g_false(o.guard):
+            return None
+        if o.kind == 'ret':
+            val = o.value if val is None else gite(o.guard, o.value, val)
+    return val
+
+
+def _seq_tts(w, v):
+    s = v.val if isinstance(v, SRef) else v
+    if not isinstance(s, Seq):
+        return None
+    tts = [w.tt_of(x) for x in s.items]
+    if any(t is None for t in tts):
+        return None
+    return tts
+
+
+def _bv64(n):
+    return z3.BitVecVal(n, 64) if isinstance(n, int) else n
+
+
+def contract_tt(w, name, args, I=None, fr=None):
     """truth table promised by the contract of BDDEnv::<name> for these (post-&self) arguments, or None"""
     k = w.k
     T = w.tt_of
@@ -199,7 +225,69 @@ def contract_tt(w, name, args):
             q = tt_exists(exp, k, i) if name == 'exists' else tt_forall(exp, k, i)
             exp = [gite(qi, q[j], exp[j]) for j in range(1 << k)]
         return exp
+    if name in ('aln', 'amn', 'exn'):
+        tts = _seq_tts(w, args[0])
+        if tts is None:
+            return None
+        n = _bv64(args[1])
+        out = []
+        for j in range(1 << k):
+            cnt = count_bv([t[j] for t in tts])
+            d = n - cnt      # exactly what the code computes (wrapping in release builds)
+            out.append(_simp(d <= 0 if name == 'aln' else (d >= 0 if name == 'amn' else d == 0)))
+        return out
+    if name == 'cmp_count':
+        tts = _seq_tts(w, args[0])
+        if tts is None:
+            return None
+        n = _bv64(args[1])
+        out = []
+        for j in range(1 << k):
+            cnt = count_bv([t[j] for t in tts])
+            v = _closure_bool(I, fr, args[2], z3.simplify(n - cnt))
+            if v is None:
+                return None
+            out.append(v)
+        return out
+    if name in ('count_leq', 'count_lt', 'count_geq', 'count_gt', 'count_eq', 'count_leq_recursive', 'count_geq_recursive', 'cmp_count_compare'):
+        ta, tb = _seq_tts(w, args[0]), _seq_tts(w, args[1])
+        if ta is None or tb is None:
+            return None
+        off = 0
+        kind = name
+        if name in ('count_leq_recursive', 'count_geq_recursive', 'cmp_count_compare'):
+            off = args[2]
+            if not isinstance(off, int):
+                return None
+            if name == 'cmp_count_compare':
+                f = args[3]
+                if not isinstance(f, FnItem):
+                    return None
+                fn = f.path.split('::')[-1]
+                if fn not in ('aln', 'amn'):
+                    return None
+                kind = 'count_leq_recursive' if fn == 'aln' else 'count_geq_recursive'
+        out = []
+        for j in range(1 << k):
+            ca = count_bv([t[j] for t in ta])
+            cb = count_bv([t[j] for t in tb])
+            # count_leq_recursive(a,b,n): aln(b, n + #a)  <=>  #b >= n + #a ; count_geq_recursive: amn(b, n + #a) <=> #b <= n + #a
+            if kind == 'count_leq_recursive':
+                e = cb >= ca + off
+            elif kind == 'count_geq_recursive':
+                e = cb <= ca + off
+            else:
+                e = {'count_leq': ca <= cb, 'count_lt': ca < cb, 'count_geq': ca >= cb, 'count_gt': ca > cb, 'count_eq': ca == cb}[kind]
+            out.append(_simp(e))
+        return out
     return None
+
+
+def _simp(e):
+    if isinstance(e, bool):
+        return e
+    e = z3.simplify(e)
+    return True if z3.is_true(e) else (False if z3.is_false(e) else e)
 
 
 def install_summaries(I, w, names, under_test=None, inductive=False):
@@ -212,20 +300,32 @@ def install_summaries(I, w, names, under_test=None, inductive=False):
                 if not inductive:
                     return NotImplemented
                 # only recursive calls, and only on structurally smaller arguments
-                tops = [a for (fn, a) in I2.call_stack if fn == name]
+                tops = [a for (fn, a) in I2.call_stack if fn == ('BDDEnv', None, name)]
                 if not tops:
                     return NotImplemented
                 top = tops[0]
                 if not _smaller(args[1:], top[1:]):
                     raise EngineError('recursive call of %s on arguments that are not sub-diagrams (no induction measure)' % name)
-            tt = contract_tt(w, name, args[1:])
+            tt = contract_tt(w, name, args[1:], I2, fr)
             if tt is None:
                 return NotImplemented
             used[name] = used.get(name, 0) + 1
-            return w.canon(tt)
+            res = w.canon(tt)
+            if name in ('cmp_count', 'aln', 'amn', 'exn') and I2.cfg['overflow_checks']:
+                # dev profile: the callee panics exactly when n - len underflows i64 (its chain of `n - 1`)
+                tts = _seq_tts(w, args[1])
+                n, L = args[2], len(tts)
+                if isinstance(n, int):
+                    bad = n - L < INT64_MIN
+                else:
+                    bad = z3.Not(z3.BVSubNoUnderflow(n, z3.BitVecVal(L, 64), True)) if L else False
+                if not g_false(bad):
+                    return Outs([Outcome('panic', bad, None, None, 'attempt to subtract with overflow (callee contract) @' + name),
+                                 Outcome('ret', gnot(bad), res, None)])
+            return res
         return hook
     for n in names:
-        I.hooks[n] = make(n)
+        I.hooks[('BDDEnv', None, n)] = make(n)
 
 
 def _children(v):
@@ -238,6 +338,11 @@ def _children(v):
 
 def _smaller(args, top):
     strict = False
+    for a, t in zip(args, top):
+        sa = a.val if isinstance(a, SRef) else a
+        st = t.val if isinstance(t, SRef) else t
+        if isinstance(sa, Seq) and isinstance(st, Seq) and len(sa.items) < len(st.items):
+            return True
     tops = [a for a in top if isinstance(a, RcV)]
     kids = [c for a in tops for c in _children(a)]
     for a in args:
@@ -465,6 +570,38 @@ def spec_count_const(op, nb):
     return f
 
 
+def closure_of(I, owner):
+    """the closure value `|n| ...` defined inside BDDEnv::<owner> (aln / amn / exn)"""
+    for cid, it in I.by_closure.items():
+        if it.last == owner + '::{closure#0}':
+            return Closure(cid, ())
+    raise Unsupported('no closure found in ' + owner)
+
+
+def spec_cmp_count(owner, nb):
+    """cmp_count(branches, n, <the comparator closure of aln/amn/exn>) -- the function that does the work"""
+    inner = spec_count_const(owner, nb)
+
+    def f(I, w, k, opts):
+        b = inner(I, w, k, opts)
+        b['method'] = 'cmp_count'
+        b['args'] = b['args'] + [closure_of(I, owner)]
+        return b
+    return f
+
+
+def spec_cmp_count_compare(op, na, nb):
+    inner = spec_count_lists(op, na, nb)
+    start = {'count_leq': (0, 'aln'), 'count_lt': (1, 'aln'), 'count_geq': (0, 'amn'), 'count_gt': (-1, 'amn')}[op]
+
+    def f(I, w, k, opts):
+        b = inner(I, w, k, opts)
+        b['method'] = 'cmp_count_compare'
+        b['args'] = b['args'] + [start[0], FnItem('bdd::BDDEnv::<S>::' + start[1])]
+        return b
+    return f
+
+
 def _signed(v):
     return v - (1 << 64) if v >= (1 << 63) else v
 
@@ -616,6 +753,13 @@ for _op in ('count_leq', 'count_lt', 'count_geq', 'count_gt', 'count_eq'):
     for _a in range(0, 4):
         for _b in range(0, 4):
             SPECS['%s/%d,%d' % (_op, _a, _b)] = spec_count_lists(_op, _a, _b)
+for _op in ('aln', 'amn', 'exn'):
+    for _n in range(0, 6):
+        SPECS['cmp_count[%s]/%d' % (_op, _n)] = spec_cmp_count(_op, _n)
+for _op in ('count_leq', 'count_lt', 'count_geq', 'count_gt'):
+    for _a in range(0, 4):
+        for _b in range(0, 4):
+            SPECS['cmp_count_compare[%s]/%d,%d' % (_op, _a, _b)] = spec_cmp_count_compare(_op, _a, _b)
 SPECS['model'] = spec_model
 SPECS['infer'] = spec_infer
 SPECS['retain'] = spec_retain
